@@ -11,8 +11,10 @@ import (
 	"encoding/json"
 	"fmt"
 	"os"
+	"path/filepath"
 	"runtime"
 	"sort"
+	"strings"
 	"sync"
 
 	"github.com/spikeekips/mitum/base"
@@ -42,6 +44,7 @@ type item struct {
 	nexp     int
 	stuck    bool
 	hasexp   bool
+	minsigns int // least number of genuine signers (distinct members other than the target, right key, verifying) over the expels
 }
 
 type replay struct {
@@ -77,6 +80,22 @@ func (it *item) eval() {
 		it.nexp = len(he.Expels())
 	}
 	_, it.stuck = vp.(base.StuckVoteproof)
+	it.minsigns = -1
+	for _, e := range it.shape.Expels {
+		g := map[int]bool{}
+		for _, sg := range e.Signs {
+			g[sg.Node] = sg.Node < outBase && sg.Node != e.Target && !sg.Alt && !sg.BadSig // the last sign of a node is kept
+		}
+		c := 0
+		for _, ok := range g {
+			if ok {
+				c++
+			}
+		}
+		if it.minsigns < 0 || c < it.minsigns {
+			it.minsigns = c
+		}
+	}
 }
 
 // exact count and f
@@ -85,9 +104,13 @@ func fExact(n, k int64) int64   { return n - thrExact(n, k) }
 
 func classify(n int64, a, b *item) string {
 	big := func(x *item) bool { return x.hasexp && !x.stuck && int64(x.nexp) > n-thrExact(n, x.th10) }
+	// the known class: more than n-Threshold(n) expels, every one of them signed by at least n-k suffrage members
+	signed := func(x *item) bool { return !big(x) || int64(x.minsigns) >= n-int64(x.nexp) }
 	switch {
 	case a.stuck || b.stuck:
 		return "stuck-majority"
+	case (big(a) || big(b)) && !(signed(a) && signed(b)):
+		return "expel-undersigned-conflict"
 	case big(a) || big(b):
 		return "expel-partition"
 	case a.hasexp || b.hasexp:
@@ -154,11 +177,13 @@ func main() {
 	close(ch)
 	wg.Wait()
 
-	cases := &vh.Cases{Import: "From MV Require Import C03.Model.", Type: "case", CheckFn: "check", Shard: 450}
+	hdr := "From MV Require Import C03.Model.\n"
 	sufTerm := map[int]string{}
-	for n, w := range worlds {
-		sufTerm[n] = w.coqSuf()
+	for n := 1; n <= 7; n++ {
+		sufTerm[n] = fmt.Sprintf("s%d", n)
+		hdr += fmt.Sprintf("Definition s%d : suffrage := %s.\n", n, worlds[n].coqSuf())
 	}
+	cases := &vh.Cases{Import: hdr, Type: "case", CheckFn: "check", Shard: 450}
 	for _, it := range items {
 		n := it.w.n
 		key, _ := json.Marshal(it.shape)
@@ -169,7 +194,7 @@ func main() {
 		}
 		res.Dist(fmt.Sprintf("%s/accepted=%v", it.group, it.accepted))
 		res.Dist(fmt.Sprintf("n=%d", n))
-		cases.Add(fmt.Sprintf("(CVp %s %s %s %s)", sufTerm[n], it.term, vh.Bool(it.wf), vh.Bool(it.vs)),
+		cases.Add(fmt.Sprintf("CVp %s %s %s %s", sufTerm[n], it.term, vh.Bool(it.wf), vh.Bool(it.vs)),
 			map[string]any{"n": n, "shape": it.shape, "impl_isvalid": it.wf, "impl_withsuffrage": it.vs})
 		if it.accepted && it.majority != "" {
 			res.Sample(map[string]any{"n": n, "tag": it.shape.Tag, "kind": it.shape.Kind, "accepted": true, "sfs": len(it.shape.SFs), "expels": len(it.shape.Expels)})
@@ -200,6 +225,8 @@ func main() {
 	})
 	pairs, conflicting := 0, 0
 	seenClass := map[string]int{}
+	// the corpus witnesses come first (they are the first voteproofs of their groups): put the n=4 groups first
+	sort.SliceStable(gkeys, func(i, j int) bool { return gkeys[i].n == 4 && gkeys[j].n != 4 })
 	for _, k := range gkeys {
 		g := groups[k]
 		n := int64(k.n)
@@ -244,10 +271,11 @@ func main() {
 
 	// ---- NumberOfFaultyNodes (float64) against the Flocq model and against the exact floor
 	nf := 0
+	fcases := &vh.Cases{Import: "From MV Require Import C03.Float.", Type: "Z * Z * Z", CheckFn: "check_faulty", Shard: 100000}
 	for n := int64(1); n <= int64(o.Pick(40, 300)); n++ {
 		for _, k := range []int{510, 600, 667, 670, 671, 700, 750, 800, 900, 999, 1000} {
 			got := int64(base.NumberOfFaultyNodes(uint(n), threshold(k)))
-			cases.Add(fmt.Sprintf("(CFaulty %s %s %s)", vh.Z(n), vh.Z(int64(k)), vh.Z(got)), map[string]any{"n": n, "t10": k, "impl_faulty": got})
+			fcases.Add(vh.Tuple(vh.Z(n), vh.Z(int64(k)), vh.Z(got)), map[string]any{"n": n, "t10": k, "impl_faulty": got})
 			if got != fExact(n, int64(k)) {
 				nf++
 				if nf <= 3 {
@@ -260,10 +288,46 @@ func main() {
 	res.Distribution["faulty_float_differs_from_exact"] = nf
 
 	res.Exhaustive = true
-	res.ModelCases = cases.Len()
+	res.ModelCases = cases.Len() + fcases.Len()
+	if sh := (cases.Len() + 15) / 16; sh > cases.Shard {
+		cases.Shard = sh
+	}
 	if err := cases.Write(o.Out); err != nil {
+		panic(err)
+	}
+	if err := appendCases(o.Out, fcases, "cases_900.v"); err != nil {
 		panic(err)
 	}
 	res.Write(o.Out)
 	fmt.Fprintf(os.Stderr, "c03: %d voteproofs, %d accepted-majority pairs, %d conflicting, classes %v\n", len(items), pairs, conflicting, seenClass)
+}
+
+// appendCases writes a second family of correspondence cases (other Coq type / check function) as one more cases file.
+func appendCases(dir string, c *vh.Cases, name string) error {
+	tmp := filepath.Join(dir, "second")
+	if err := os.MkdirAll(tmp, 0o755); err != nil {
+		return err
+	}
+	defer os.RemoveAll(tmp)
+	if err := c.Write(tmp); err != nil {
+		return err
+	}
+	b, err := os.ReadFile(filepath.Join(tmp, "cases_000.v"))
+	if err != nil {
+		return err
+	}
+	if err := os.WriteFile(filepath.Join(dir, name), b, 0o644); err != nil {
+		return err
+	}
+	jb, err := os.ReadFile(filepath.Join(tmp, "cases.jsonl"))
+	if err != nil {
+		return err
+	}
+	jf, err := os.OpenFile(filepath.Join(dir, "cases.jsonl"), os.O_APPEND|os.O_WRONLY, 0o644)
+	if err != nil {
+		return err
+	}
+	defer jf.Close()
+	_, err = jf.Write([]byte(strings.ReplaceAll(string(jb), `"file":"cases_000.v"`, `"file":"`+name+`"`)))
+	return err
 }
